@@ -8,7 +8,7 @@ import numpy as np
 ID = "C18"
 RULE = ("Voronoi / arc tissues (8..60 cells) with pressures and tensions assigned through the public objects (random, zero, "
         "negative, constant) x grid sizes 1..12 x radii 0.5..6 cell radii. distinct = (cells, grid, radius class, assignment "
-        "class); non-trivial = at least one non-empty bin")
+        "class), 40 % of them in tiny (1e-7..1e-3) or huge (1e3..1e6) length units; non-trivial = at least one non-empty bin")
 MIN_DECISIVE = {"quick": 100, "thorough": 1500}
 REQUIRED_COUNTERS = ["post:stress_tensor", "bins:checked", "linearity:checked", "isotropy:checked", "principal:checked"]
 TECHNIQUE = "runtime contract on stress_tensor / calculate_stress_tensor with metamorphic linearity and pure-pressure oracles"
@@ -56,6 +56,7 @@ def _install():
             return True
         rmin = radius * np.sqrt(areas.mean() / np.pi)
         tensors = {}
+        occupied = {}
         collisions = 0
         for row in range(grid):
             for col in range(grid):
@@ -75,9 +76,10 @@ def _install():
                     continue
                 cx, cy = (xe[row] + xe[row + 1]) / 2, (ye[col] + ye[col + 1]) / 2
                 d = np.hypot(cm[:, 0] - cx, cm[:, 1] - cy)
-                if abs(d.min() - rmin) <= 1e-9 * max(1.0, rmin):
+                if abs(d.min() - rmin) <= 1e-9 * (rmin + abs(cx) + abs(cy)):
                     continue
                 empty = d.min() > rmin
+                occupied[(row, col)] = not empty
                 if empty and np.any(t != 0):
                     mech = "F-STRESS-KEY" if (grid >= 11 and len(owners) > 1) else "empty-bin-nonzero"
                     mon.fail(mech, "zero matrix where no cell centre lies within the averaging radius", row=row, col=col,
@@ -87,6 +89,7 @@ def _install():
                     mon.fail(mech, "a grid cell with cell centres in range carries a tensor", row=row, col=col, grid=grid,
                              owners=owners)
         c["tensors"] = tensors
+        c["occupied"] = occupied
         c["collisions"] = collisions
         c["centres"] = ([(xe[i] + xe[i + 1]) / 2 for i in range(grid)], [(ye[i] + ye[i + 1]) / 2 for i in range(grid)])
         return True
@@ -114,6 +117,12 @@ def run_case(case):
     for _ in range(case["count"]):
         at = scen.base_tissue(rng, ["vor", "arc", "mob"][int(rng.integers(3))], ncells=int(rng.integers(10, 70)))
         at, _s = scen.maybe_sub(rng, at, p=0.2, min_cells=5)
+        unit = "unit"
+        if rng.random() < 0.4:
+            # the same tissue in physical units (metres for micrometre-sized cells) or in nanometres
+            unit = ["tiny", "huge"][int(rng.integers(2))]
+            at = at.similarity(scale=float(10 ** (rng.uniform(-7, -3) if unit == "tiny" else rng.uniform(3, 6))))
+        hist["units:" + unit] = hist.get("units:" + unit, 0) + 1
         with env.Capture() as cap:
             r = realise.realise(at, k=int(rng.integers(1, 5)), rng=rng, relabel=bool(rng.integers(2)), flips="random")
             fr = frames.Frame(0, r.vertices, r.edges, r.cells)
@@ -135,6 +144,7 @@ def run_case(case):
                 mon.fail("raises", "the stress tensor is computed", exc=repr(exc)[:160], grid=grid, radius=radius,
                          tb=traceback.format_exc()[-300:])
             CTX.pop("cur", None)
+            CTX["last"] = cur
             return cur.get("tensors"), cur.get("collisions", 0)
         p1, T1 = rng.normal(0, 1, nc), rng.uniform(0.2, 2, nb)
         p2, T2 = rng.normal(0, 1, nc), rng.normal(0, 1, nb)
@@ -157,11 +167,14 @@ def run_case(case):
         s4, _c = run(np.full(nc, pc), np.zeros(nb), False)
         if s4:
             mon.count("isotropy:checked")
+            occ = CTX["last"].get("occupied", {})
             for k, t in s4.items():
-                if (np.any(t != 0) or pc == 0.0) and np.abs(t - (-pc) * np.eye(2)).max() > 1e-12 * max(1, abs(pc)) \
-                        and (np.any(t != 0)):
+                # a bin with cell centres in range (decided by the oracle; bins on the boundary of the radius are in
+                # neither class) carries exactly -p*Id; every other reported tensor is either zero or -p*Id
+                must = occ.get(k) is True and not (grid >= 11 and _c)
+                if (must or np.any(t != 0)) and np.abs(t - (-pc) * np.eye(2)).max() > 1e-12 * max(1, abs(pc)):
                     mon.fail("not-isotropic", "-p times the identity when all tensions are zero and every cell has pressure p",
-                             bin=list(k), t=t.tolist(), p=pc)
+                             bin=list(k), t=t.tolist(), p=pc, occupied=bool(occ.get(k)))
                     break
         # principal stresses of the frame
         _assign(fr, p1, T1)
